@@ -76,7 +76,7 @@ def encMark : Mark → Json
   | .examplesNotBuilt => .str "examples_not_built"
 
 def encStatus : Status → Json
-  | .success => .str "success" | .skip => .str "skip" | .error => .str "error"
+  | .success => .str "success" | .skip => .str "skip" | .failure => .str "failure" | .error => .str "error"
 
 def decECase (j : Json) : Except String ECase := do
   return ⟨← decContainers (← field j "params"), ← decBody (optField j "body"),
@@ -92,6 +92,80 @@ def decSeg : Json → Except String Seg
 def decExpect (j : Json) : Except String Expect := do
   return ⟨← asBool (← field j "isBody"), ← asStr (← field j "container"), ← asStr (← field j "name"),
           ← asList decSeg (← field j "path"), ← ofOrd (← field j "value")⟩
+
+def decPhase : Json → Except String HPhase
+  | .str "explicit" => .ok .explicit | .str "reuse" => .ok .reuse | .str "generate" => .ok .generate
+  | .str "target" => .ok .target | .str "shrink" => .ok .shrink | .str "explain" => .ok .explain
+  | _ => .error "bad phase"
+
+def encPhase : HPhase → Json
+  | .explicit => .str "explicit" | .reuse => .str "reuse" | .generate => .str "generate"
+  | .target => .str "target" | .shrink => .str "shrink" | .explain => .str "explain"
+
+def decMode : Json → Except String Mode
+  | .str "examples" => .ok .examples | .str "coverage" => .ok .coverage | .str "fuzzing" => .ok .fuzzing
+  | _ => .error "bad mode"
+
+def decVerdict : Json → Except String Verdict
+  | .str "pass" => .ok .pass | .str "fail" => .ok .fail | .str "error" => .ok .error
+  | _ => .error "bad verdict"
+
+def decRaised : Json → Except String Raised
+  | .str "returned" => .ok .returned | .str "skipTest" => .ok .skipTest | .str "failure" => .ok .failure
+  | .str "unexpectedError" => .ok .unexpectedError | .str "exceptionGroup" => .ok .exceptionGroup
+  | .str "unsatisfiable" => .ok .unsatisfiable | .str "refResolution" => .ok .refResolution
+  | .str "invalidArgument" => .ok .invalidArgument | .str "deadlineExceeded" => .ok .deadlineExceeded
+  | .str "jsonSchemaError" => .ok .jsonSchemaError | .str "other" => .ok .other
+  | _ => .error "bad raised"
+
+def decMark : Json → Except String Mark
+  | .str "unsatisfiable_example" => .ok .unsatisfiable | .str "non_serializable" => .ok .nonSerializable
+  | .str "invalid_regex" => .ok .invalidRegex | .str "invalid_example_header" => .ok .invalidHeaders
+  | .str "examples_not_built" => .ok .examplesNotBuilt
+  | _ => .error "bad mark"
+
+def encReport : Report → Json
+  | .unsatisfiable => .str "Unsatisfiable"
+  | .nonSerializable => .str "SerializationNotPossible"
+  | .invalidRegex => .str "InvalidRegexPattern"
+  | .invalidHeaders names => .arr (.str "InvalidHeadersExample" :: names.map .str)
+  | .schemaProblem => .str "SchemaProblem"
+  | .deadline => .str "DeadlineExceeded"
+  | .testError => .str "TestError"
+
+def decReport : Json → Except String Report
+  | .str "Unsatisfiable" => .ok .unsatisfiable
+  | .str "SerializationNotPossible" => .ok .nonSerializable
+  | .str "InvalidRegexPattern" => .ok .invalidRegex
+  | .arr (.str "InvalidHeadersExample" :: names) => do return .invalidHeaders (← names.mapM asStr)
+  | .str "SchemaProblem" => .ok .schemaProblem
+  | .str "DeadlineExceeded" => .ok .deadline
+  | .str "TestError" => .ok .testError
+  | _ => .error "bad report"
+
+def decStatus : Json → Except String Status
+  | .str "success" => .ok .success | .str "skip" => .ok .skip | .str "failure" => .ok .failure
+  | .str "error" => .ok .error
+  | _ => .error "bad status"
+
+/-- `{"rules": [[expectation, verdict], …], "default": verdict}`: the first expectation the case meets decides -/
+def decVerdictFn (j : Json) : Except String (ECase → Verdict) := do
+  let rules ← asList (fun p => match p with
+    | .arr [e, v] => do return (← decExpect e, ← decVerdict v)
+    | _ => .error "bad verdict rule") (← field j "rules")
+  let dflt ← decVerdict (← field j "default")
+  return fun c => match rules.find? (fun r => meetsB c.params c.body r.1) with
+    | some r => r.2
+    | none => dflt
+
+def decRun (j : Json) : Except String RunCfg := do
+  return { mode := ← decMode (← field j "mode"), phases := ← asList decPhase (← field j "phases"),
+           rmb := ← asBool (← field j "rmb"), cof := ← asBool (← field j "cof"),
+           unique := ← asBool (← field j "unique"), sensitive := ← asPairs asStr asStr (← field j "sensitive"), useDb := ← asBool (← field j "useDb"),
+           gen := ← asList decECase (← field j "gen"), verdict := ← decVerdictFn (← field j "verdict") }
+
+def encECaseFull (c : ECase) : Json :=
+  jobj [("params", encContainers c.params), ("body", encBody c.body), ("invalidHeaders", .arr (c.invalidHeaders.map .str))]
 
 def genMarker : Json → Json := fun _ => .str "<GEN>"
 
@@ -109,7 +183,10 @@ def handle : Handler := fun op a => do
     let params ← asList decSource (← field a "params")
     let bodies ← asList decSource (← field a "bodies")
     let fuel ← asNat (← field a "fuel")
-    let top := extractTopLevel (params ++ bodies)
+    let vRef ← match optField a "vref" with
+      | .null => pure Variant.asFound
+      | j => decVariant j
+    let top := extractTopLevel vRef (params ++ bodies)
     let sch := extractFromSchemas genMarker fuel (params ++ bodies)
     let combos := produceCombinations (top ++ sch)
     let merged ← match optField a "user" with
@@ -145,6 +222,33 @@ def handle : Handler := fun op a => do
     let e ← decExample (← field a "example")
     let cases ← asList decECase (← field a "cases")
     return .bool (cases.any fun c => carriesB c.params c.body e)
+  | "createPhases" =>
+    let modes ← asList decMode (← field a "modes")
+    let phases ← asList decPhase (← field a "phases")
+    let final := createPhases modes phases
+    return jobj [("final", .arr (final.map encPhase)),
+                 ("registers", .bool (registersExamples modes final (← asBool (← field a "supports"))))]
+  | "runTest" =>
+    let r := runTest (← decRaised (← field a "raised")) (← asBool (← field a "cof")) (← asNat (← field a "nErrors"))
+      (← asList decMark (← field a "marks")) (← asList asStr (← field a "bad"))
+    return jobj [("status", encStatus r.1), ("reports", .arr (r.2.map encReport))]
+  | "history" =>
+    let vExc ← decVariant (← field a "vexc"); let vHdr ← decVariant (← field a "vhdr")
+    let vMark ← decVariant (← field a "vmark")
+    let vHash ← decVariant (← field a "vhash")
+    let built : Except Exc (List ECase) ← match optField a "error" with
+      | .str e => do pure (.error (← decExc e))
+      | _ => do pure (.ok (← asList decECase (← field a "cases")))
+    let db ← asList decECase (← field a "db")
+    let runs ← asList decRun (← field a "runs")
+    return .arr ((runHistory vExc vHdr vMark vHash built db runs).map fun p =>
+      jobj [("executed", .arr (p.2.executed.map encECase)), ("engineRan", .num p.2.engineRan.length 0),
+            ("status", encStatus p.2.status), ("reports", .arr (p.2.reports.map encReport))])
+  | "judge" =>
+    let o : Observed := ⟨← asList decECase (← field a "cases"), ← decStatus (← field a "status"),
+                         ← asList decReport (← field a "reports")⟩
+    return .arr ((judge (← asList decExpect (← field a "sendable")) (← asList decExpect (← field a "unsendable"))
+      (← asBool (← field a "judgeSendable")) o).map .str)
   | _ => .error s!"unknown op {op}"
 
 def main : IO Unit := run handle
